@@ -91,7 +91,11 @@ func walkTree(rootGoitPath string, object *Object) ([]*Node, error) {
 			if err != nil {
 				return nil, err
 			}
-			lineSplit = strings.Split(lineString, " ")
+			// "<mode> <name>": the name is everything after the first space and may contain spaces
+			lineSplit = strings.SplitN(lineString, " ", 2)
+			if len(lineSplit) != 2 {
+				return nil, ErrInvalidTreeObject
+			}
 
 			mode := lineSplit[0]
 			if mode == "040000" {
@@ -121,7 +125,11 @@ func walkTree(rootGoitPath string, object *Object) ([]*Node, error) {
 			hashString := hex.EncodeToString(hashBytes)
 			lineSplit = []string{hashString}
 			if lineString != "" {
-				lineSplit = append(lineSplit, strings.Split(lineString, " ")...)
+				modeAndName := strings.SplitN(lineString, " ", 2)
+				if len(modeAndName) != 2 {
+					return nil, ErrInvalidTreeObject
+				}
+				lineSplit = append(lineSplit, modeAndName...)
 			}
 
 			hash, err := sha.ReadHash(hashString)
